@@ -7,8 +7,8 @@
  *  c01.sched : E1, two senders + flush caller + auto-flush (early wakes) + receiver applying a capacity change */
 #include "../fw/explore.h"
 #include "../fw/hx.h"
-#include "/repo/include/bidib.h"
-#include "/repo/src/transmission/bidib_transmission_intern.h"
+#include "include/bidib.h"
+#include "src/transmission/bidib_transmission_intern.h"
 #include <stdio.h>
 #include <stdlib.h>
 #include <string.h>
